@@ -152,8 +152,14 @@ def dyn_event(c):
         warnings.simplefilter("ignore")
         try:
             sf = StructureFactor(atoms, g_max=2 * g_max, centering=cen)
-            bw = BlochWaves(sf, energy=ENERGIES[c["energy"]], sg_max=SG_MAX[c["sg_max"]], g_max=g_max, orientation_matrix=orientation(c["orientation"]),
-                            use_wave_eq=bool(c["use_wave_eq"]))
+            mkbw = lambda s_: BlochWaves(s_, energy=ENERGIES[c["energy"]], sg_max=SG_MAX[c["sg_max"]], g_max=g_max,
+                                         orientation_matrix=orientation(c["orientation"]), use_wave_eq=bool(c["use_wave_eq"]))
+            if c.get("prebuilt"):
+                # one eagerly built StructureFactorArray shared by several calculations: it has been used twice before (results discarded)
+                sf = sf.build(lazy=False)
+                for _ in range(2):
+                    mkbw(sf).calculate_diffraction_patterns([50.0], lazy=False)
+            bw = mkbw(sf)
             th = {"ascending": [0.0, 37.0, 120.0, 455.5], "descending": [455.5, 120.0, 37.0, 0.0], "unsorted": [120.0, 0.0, 455.5, 37.0],
                   "repeated": [37.0, 0.0, 37.0, 455.5]}[c.get("order", "ascending")]
             ev["beams"] = int(len(bw))
@@ -170,11 +176,13 @@ def dyn_event(c):
             A = np.asarray(A.compute() if hasattr(A, "compute") else A)
             off = A - np.diag(np.diag(A))
             ev["hermitian_ppb"] = ppb(float(np.abs(off - off.conj().T).max()) / max(float(np.abs(off).max()), 1e-30))
-            lz = np.asarray(bw.calculate_diffraction_patterns(th, lazy=True).compute().array, dtype=float)
+            # the lazy route needs the lazy builder: with a prebuilt array it is the same calculation from freshly built structure factors
+            bwl = mkbw(StructureFactor(atoms, g_max=2 * g_max, centering=cen)) if c.get("prebuilt") else bw
+            lz = np.asarray(bwl.calculate_diffraction_patterns(th, lazy=True).compute().array, dtype=float)
             ev["lazy_ppb"] = ppb(float(np.abs(lz - inten).max())) if lz.shape == inten.shape else 2 * 10 ** 9
             worst = 0.0
             for k, z in [(k, z) for k, z in enumerate(th) if z != 0.0][:2]:
-                S = bw.calculate_scattering_matrix(z)
+                S = bwl.calculate_scattering_matrix(z)
                 S = np.asarray(S.compute() if hasattr(S, "compute") else S)
                 worst = max(worst, float(np.abs(np.abs(S[:, i0]) ** 2 - inten[k]).max()))
             ev["expm_ppb"] = ppb(worst)
